@@ -19,7 +19,8 @@
 EXTENDS Integers, Sequences, FiniteSets, TLC
 
 CONSTANTS
-  MaxRetry,      \* configured commit/rollback retry count; 0 = retry without bound
+  MaxRetryC,     \* configured commit retry count; 0 = retry without bound
+  MaxRetryR,     \* configured rollback retry count; 0 = retry without bound
   MaxFail,       \* generation bound: transport errors per second-phase loop
   MaxDepth,      \* nesting depth of scopes
   MaxKids,       \* child scopes per scope
@@ -39,7 +40,7 @@ VARIABLES
   rets,       \* values returned by closed scopes, in closing order (history)
   decided,    \* xid -> outcome of the scope that began it ("none" while open)
   env,        \* history of environment choices (scenario)
-  budget      \* the configured retry count in force (a configuration value: never changes)
+  budget      \* the configured retry counts in force [commit, rollback] (configuration: never changes)
 
 vars == <<stack, tclog, nxid, cancelled, rets, decided, env, budget>>
 
@@ -61,7 +62,7 @@ Depth == Len(stack)
 Init ==
   /\ stack = <<>> /\ tclog = <<>> /\ nxid = 0 /\ cancelled = FALSE
   /\ rets = <<>> /\ decided = <<>> /\ env = <<>>
-  /\ budget = MaxRetry
+  /\ budget = [commit |-> MaxRetryC, rollback |-> MaxRetryR]
 
 (***************************************************************************)
 (* A scope is entered: at the root, or from inside a running callback.     *)
@@ -124,7 +125,7 @@ P2Req(kind, x) ==
   /\ stack # <<>> /\ Top.st = "p2"
   /\ ~Top.acked
   /\ Top.att = 0 \/ Top.lastrep = "neterr"
-  /\ budget = 0 \/ Top.att < budget
+  /\ budget[kind] = 0 \/ Top.att < budget[kind]
   /\ kind = P2Kind(Top) /\ x = Top.xid
   /\ stack' = SetTop([Top EXCEPT !.st = "p2w", !.att = @ + 1])
   /\ tclog' = Append(tclog, [kind |-> kind, xid |-> x])
@@ -144,7 +145,7 @@ P2Rep(r) ==
 \* context is cancelled
 GaveUp(f) ==
   /\ f.st = "p2" /\ ~f.acked
-  /\ \/ budget > 0 /\ f.att >= budget
+  /\ \/ budget[P2Kind(f)] > 0 /\ f.att >= budget[P2Kind(f)]
      \/ cancelled
 
 \* nil is earned: the business succeeded and (if this scope decides) the commit was acknowledged
@@ -208,8 +209,10 @@ Truthful == \A x \in 1..nxid :
   /\ Reqs(x, "rollback") # {} => decided[x] \in {"err", "panic"}
 
 \* retry discipline: at most MaxRetry requests per decision
-RetryBound == budget > 0 =>
-  \A x \in 1..nxid : Cardinality(Reqs(x, "commit")) <= budget /\ Cardinality(Reqs(x, "rollback")) <= budget
+RetryBound ==
+  \A x \in 1..nxid :
+    /\ budget.commit > 0 => Cardinality(Reqs(x, "commit")) <= budget.commit
+    /\ budget.rollback > 0 => Cardinality(Reqs(x, "rollback")) <= budget.rollback
 
 \* an open joining scope never has requests of its own: every second-phase request names an xid whose
 \* beginner is on the stack or closed -- by construction of P2Req; checked as: xids in the log were issued
